@@ -232,6 +232,22 @@ for _ in range(CASES):
     check("int(x) truncates toward zero",
           int(v) == (math.floor(v) if v >= 0 else -math.floor(-v)))
 
+# 11b. IEEE: (p - q) > u is False whenever p is -inf or NaN -------------------------
+SPECIAL = [-np.inf, np.inf, np.nan, 0.0, -1.5, 2.0]
+with np.errstate(invalid="ignore"):
+    for p_ in (-np.inf, np.nan):
+        for q_ in SPECIAL:
+            for u_ in SPECIAL:
+                r_ = bool(np.greater(np.array([p_]) - q_,
+                                     np.array([u_]))[0])
+                check("(p - q) > u (strict) is False for p in {-inf, NaN}",
+                      not r_, f"p={p_} q={q_} u={u_}")
+    x = np.array([-np.inf, np.nan, 1.0])
+    check("-inf / NaN minus a finite number stays -inf / NaN",
+          (x - 0.5)[0] == -np.inf and np.isnan((x - 0.5)[1]))
+    check("np.nan_to_num: NaN -> 0, -inf -> a finite number",
+          np.nan_to_num(x)[1] == 0 and np.isfinite(np.nan_to_num(x)[0]))
+
 # 12. slicing ---------------------------------------------------------------------------
 for _ in range(CASES):
     n = rint(0, 6)
